@@ -46,6 +46,10 @@ Next ==
 
 Spec == Init /\ [][Next]_bvars
 
+(* liveness: under weak fairness of the generator every resolution of the choice terminates *)
+FairSpec == Spec /\ WF_bvars(Next)
+Terminates == <>(gs.pc = "stop")
+
 NothingFails == bad = {}
 (* C05 at design level: every resolution of the choice takes exactly the closed-form number of steps *)
 OptimalSteps == gs.pc = "stop" => cnt.nF = GW(N, BCl(N, S))
